@@ -1,6 +1,7 @@
 package props
 
 import (
+	"time"
 	"context"
 	"fmt"
 	"sort"
@@ -50,7 +51,14 @@ type C12Scenario struct {
 	// restarts), given with WithSubscriptionStore - before WithStore (1) or after it (2). The event store
 	// implements SubscriptionStore too; it must then never be asked to save or load an offset.
 	SepSub int `json:"sep_sub,omitempty"`
+	// TimeoutMs: the bus has a persistence timeout of this many (simulated) milliseconds, the stores refuse
+	// offset operations on a dead context (as a database driver does), and publishers' "sleep" steps let 3 timeouts
+	// pass. The timeout bounds each append; the subscription's position keeps being saved however old it is.
+	TimeoutMs int `json:"timeout_ms,omitempty"`
 }
+
+// c12SubID: the two subscription ids differ only in letter case - different ids all the same
+func c12SubID(si int) string { return []string{"Sub-x", "sub-x", "SUB-X"}[si%3] }
 
 func genC12(rt *rapid.T) core.Scenario {
 	sc := &C12Scenario{Store: StoreCfg{Kind: rapid.SampledFrom([]string{"mem", "mem", "mem", "sqlite"}).Draw(rt, "store")}}
@@ -63,6 +71,9 @@ func genC12(rt *rapid.T) core.Scenario {
 		sc.Store.HideStreamer = true
 		sc.Store.ShortReads = rapid.Bool().Draw(rt, "shortReads")
 		sc.Batch = rapid.SampledFrom([]int{0, 2, 3}).Draw(rt, "replayBatch")
+	}
+	if rapid.IntRange(0, 3).Draw(rt, "timeout") == 3 {
+		sc.TimeoutMs = 20
 	}
 	long := rapid.IntRange(0, 5).Draw(rt, "long") == 5 // histories that push the log past 10 entries
 	ns := rapid.IntRange(1, 2).Draw(rt, "nSubs")
@@ -79,6 +90,9 @@ func genC12(rt *rapid.T) core.Scenario {
 		for i := 0; i < np; i++ {
 			if rapid.IntRange(0, 3).Draw(rt, "pubYield") == 3 {
 				inc.Publisher = append(inc.Publisher, C12Step{Kind: "yield"})
+				if sc.TimeoutMs > 0 && rapid.Bool().Draw(rt, "sleepInstead") {
+					inc.Publisher[len(inc.Publisher)-1].Kind = "sleep"
+				}
 			} else {
 				// publish mostly the subscribed shapes
 				shape := sc.Subs[rapid.IntRange(0, len(sc.Subs)-1).Draw(rt, "pubSub")]
@@ -238,13 +252,18 @@ func (sc *C12Scenario) Execute(t *testing.T) *core.Outcome {
 				savedAtStart[n][k] = v
 			}
 			fc.ShortReads = sc.Store.ShortReads
+			fc.HonourCtx = sc.TimeoutMs > 0
 			bopts := []eventbus.Option{eventbus.WithStore(fc.wrap(sc.Store.HideStreamer))}
+			if sc.TimeoutMs > 0 {
+				bopts = append(bopts, eventbus.WithPersistenceTimeout(time.Duration(sc.TimeoutMs)*time.Millisecond))
+			}
 			if sc.SepSub > 0 {
 				// the decorator around the separate offset store shares the crash hook and the bookkeeping; faults of
 				// the plan that address SaveOffset / LoadOffset follow the offsets to it
 				fc2 := newFcore(subInner, fc.plan, &rec)
 				fc2.n, fc2.Fired = counts, fired
 				fc2.OnSave, fc2.OnOp, fc2.CrashBefore = fc.OnSave, fc.OnOp, fc.CrashBefore
+				fc2.HonourCtx = fc.HonourCtx
 				fc.plan.FailSave, fc.plan.LostAckSave, fc.plan.FailLoad = nil, nil, nil
 				fc.OnSave = func(id string, off eventbus.Offset) { offsetOpsOnEventStore++ }
 				fc.OnLoad = func(id string) { offsetOpsOnEventStore++ }
@@ -265,7 +284,7 @@ func (sc *C12Scenario) Execute(t *testing.T) *core.Outcome {
 			subscribe := func(si int) {
 				subActive[si] = true
 				callStamp := rec.Add("subscribe-call", si, n, "")
-				err := shapes[sc.Subs[si]].SubReplay(ctx, bus, fmt.Sprintf("sub-%d", si), func(ev int) {
+				err := shapes[sc.Subs[si]].SubReplay(ctx, bus, c12SubID(si), func(ev int) {
 					if simrt.Dead() || simrt.Dying() {
 						return
 					}
@@ -291,6 +310,10 @@ func (sc *C12Scenario) Execute(t *testing.T) *core.Outcome {
 				for _, st := range inc.Publisher {
 					if st.Kind == "yield" {
 						simrt.Yield(siteClient)
+						continue
+					}
+					if st.Kind == "sleep" {
+						simrt.Sleep(3 * time.Duration(sc.TimeoutMs) * time.Millisecond)
 						continue
 					}
 					nextEv++
@@ -340,6 +363,11 @@ func (sc *C12Scenario) Execute(t *testing.T) *core.Outcome {
 		if sc.SepSub > 0 && offsetOpsOnEventStore > 0 {
 			out.V("offsets-in-the-wrong-store", "[%s] the bus was given a subscription store of its own (WithSubscriptionStore %s WithStore), yet the event store was asked to save or load an offset %d times", sc.Store, map[int]string{1: "before", 2: "after"}[sc.SepSub], offsetOpsOnEventStore)
 		}
+		if n := fired["offset-op-with-dead-context"]; n > 0 {
+			// the subscriber's own context is the background context: a dead one was made by the bus
+			out.V("offset-saved-with-dead-context", "[%s] the bus called SaveOffset / LoadOffset %d times with a context that was already cancelled or past its deadline, although the subscriber's context is live: the position cannot be saved (persistence timeout %d ms)", sc.Store, n, sc.TimeoutMs)
+		}
+		delete(fired, "offset-op-with-dead-context")
 		for k, v := range fired {
 			if v > 0 && k != "short-read" {
 				faultFired = true
@@ -420,7 +448,7 @@ func (sc *C12Scenario) Execute(t *testing.T) *core.Outcome {
 		}
 	}
 	for si, shapeIdx := range sc.Subs {
-		subID := fmt.Sprintf("sub-%d", si)
+		subID := c12SubID(si)
 		feat := func(ev int, extra ...string) string {
 			var f []string
 			for _, e := range extra {
